@@ -315,6 +315,12 @@ func (sc *serverConn) checkFrameWithStream(fr *FrameHeader) error {
 	switch fr.Type() {
 	case FramePing:
 		return NewGoAwayError(ProtocolError, "ping is carrying a stream id")
+	case FrameSettings, FrameGoAway:
+		// These are about the connection too (RFC 7540 6.5, 6.8). Taken for
+		// stream frames they were judged by the state of the stream they
+		// named: ignored on one the server had reset, STREAM_CLOSED on one
+		// that was half closed, REFUSED_STREAM at the concurrency limit.
+		return NewGoAwayError(ProtocolError, "connection frame is carrying a stream id")
 	case FramePushPromise:
 		return NewGoAwayError(ProtocolError, "clients can't send push_promise frames")
 	}
